@@ -3,7 +3,7 @@ import os, shutil, subprocess, tempfile, re, time, json
 from concurrent.futures import ThreadPoolExecutor
 
 VERIF = os.path.dirname(os.path.dirname(os.path.abspath(__file__)))
-REPO = '/repo'
+REPO = os.environ.get('XSG_REPO', '/repo')
 CARGO_TOML = '''[package]
 name = "xml_schema_generator"
 version = "0.0.0"
